@@ -4,7 +4,7 @@
    made so far; [handed_out] = the channels Wait has returned so far.                        *)
 From Coq Require Import List Arith ZArith Bool.
 From GT Require Import Base.Conc.
-From GT Require Import WGModel WGSpec WGInv WGProofs WGRefute.
+From GT Require Import WGModel WGSpec WGInv WGProofs WGInv2 WGRefute.
 Import ListNotations.
 Local Open Scope Z_scope.
 
@@ -26,6 +26,13 @@ Proof.
   - apply rest_zero_closed; auto.
   - apply rest_positive_open; auto.
 Qed.
+
+(* the same statement as the executable monitor that also judges the traces recorded from the
+   real code: at every position at rest Count = sum of deltas, sum = 0 -> all handed-out channels
+   closed, a Wait returning at rest with sum > 0 returns an open channel, a goroutine inside Wait
+   scheduled K_WAIT times in a row at rest has returned, and no call panics *)
+Theorem C02_monitor : forall progs sched, c02_ok (tr (wg_exec progs sched)) = true.
+Proof. exact c02_all. Qed.
 
 (* Count() is a single load returning that count *)
 Theorem C02_count_call : forall cf tid todo,
@@ -76,6 +83,7 @@ Theorem C02_orig_refuted_monitor : exists progs sched,
 Proof. eexists _, _. exact c02_orig_refuted_trace. Qed.
 
 Print Assumptions C02_rest.
+Print Assumptions C02_monitor.
 Print Assumptions C02_count_call.
 Print Assumptions C02_wait_bounded.
 Print Assumptions C02_wait_from_call.
